@@ -205,6 +205,20 @@ def run(ctx: Ctx):
             continue
         evs.extend(e)
         ctx.case(json.dumps(c), nontrivial=c["n"] >= 2)
+    # decimal limits (not dyadic, so (hi - lo) / n is not a float the lattice ever produces): the sample count and the half-open
+    # interval must not depend on how a step computed in floating point accumulates; same clauses of DistTrace decide
+    dec = [dict(k="uniform", lo=[a, 10], hi=[b, 10], n=n, endpoint=ep, decimal=True)
+           for a in (-20, -13, 1) for b in (1, 7, 29) if a < b for n in (range(2, 41) if not quick else range(2, 41, 1)) for ep in (False, True)]
+    ndec = 0
+    for c in dec:
+        e, ok = run_case(c)
+        if not ok:
+            skipped += 1
+            continue
+        evs.extend(e)
+        ndec += 1
+        ctx.case(json.dumps(c), nontrivial=True)
+    ctx.notes["decimal_limit_cases"] = ndec
     ctx.exhaustive = True
     ctx.notes["cases_from_tlc"] = len(cases)
     ctx.notes["inexact_cases_skipped"] = skipped
